@@ -306,6 +306,28 @@ Theorem C08_history_of_rearrangements_is_bijection :
 Proof. exact history_rearr_bijective. Qed.
 Print Assumptions C08_history_of_rearrangements_is_bijection.
 
+(* 11b. no voxel is duplicated: for EVERY spatial operation (pad included) and every finite
+        history the index map is injective on the voxels that have a pre-image, and pre-images lie
+        inside the receiver's index box *)
+Theorem C08_no_voxel_duplicated :
+  forall R rO radd rmul rsub ropp inj ltb Vx padval (v : vol R Vx) o v' f,
+  vol_step_sp R rO radd rmul rsub ropp inj ltb Vx padval v o = Ok (v', f) -> wf (v_shape R Vx v) ->
+  wf (v_shape R Vx v') /\
+  (forall j i, inr (v_shape R Vx v') j -> f j = Some i -> inr (v_shape R Vx v) i) /\
+  (forall j j' i, inr (v_shape R Vx v') j -> inr (v_shape R Vx v') j' -> f j = Some i -> f j' = Some i -> j = j').
+Proof. exact step_injective. Qed.
+Print Assumptions C08_no_voxel_duplicated.
+
+Theorem C08_history_duplicates_no_voxel :
+  forall R rO radd rmul rsub ropp inj ltb Vx padval ops (v : vol R Vx), wf (v_shape R Vx v) ->
+  let r := run_tr R rO radd rmul rsub ropp inj ltb Vx padval v ops in
+  wf (v_shape R Vx (fst r)) /\
+  (forall j i, inr (v_shape R Vx (fst r)) j -> snd r j = Some i -> inr (v_shape R Vx v) i) /\
+  (forall j j' i, inr (v_shape R Vx (fst r)) j -> inr (v_shape R Vx (fst r)) j' ->
+     snd r j = Some i -> snd r j' = Some i -> j = j').
+Proof. exact history_injective. Qed.
+Print Assumptions C08_history_duplicates_no_voxel.
+
 (* 12. the geometry-only object driven through the SAME finite history (it follows spatial
        operations and copy, is left alone by channel operations and with_array, stays as it was
        when it refuses) ends with exactly the geometry of the volume - every history whose pad
